@@ -33,10 +33,12 @@ def main():
         args = args[2:]
     prop, k = args[0], args[1]
     extra = args[2:]
-    src = "/tmp/mut/%s-out" % prop
-    wt = "/tmp/mut/%s" % prop
+    root = os.environ.get("MUT_ROOT", "/tmp/mut")          # round 2 lives in /tmp/mut2
+    tagr = os.environ.get("MUT_TAG", "")                   # e.g. "r2" -> seeded/C01-r2m1
+    src = "%s/%s-out" % (root, prop)
+    wt = "%s/%s" % (root, prop)
     diff = os.path.join(src, "m%s.diff" % k)
-    out = os.path.join("/verif", "seeded", "%s-m%s" % (prop, k))
+    out = os.path.join("/verif", "seeded", "%s-%sm%s" % (prop, tagr, k))
     os.makedirs(out, exist_ok=True)
     shutil.copy(diff, os.path.join(out, "patch.diff"))
     for suffix, name in (("-demo.md", "demo.md"),):
